@@ -73,7 +73,7 @@ namespace
     }
     value call_code(runtime& runtime, value::cref right)
     {
-        frame f = { runtime.default_value_scope(), right.data<d_code, instruction_set>() };
+        frame f = { runtime.current_value_scope(), right.data<d_code, instruction_set>() };
         auto _this = runtime.context_active().get_variable("_this");
         f["_this"] = _this.has_value() ? *_this : value{};
         runtime.context_active().push_frame(f);
@@ -81,7 +81,7 @@ namespace
     }
     value call_any_code(runtime& runtime, value::cref left, value::cref right)
     {
-        frame f = { runtime.default_value_scope(), right.data<d_code, instruction_set>() };
+        frame f = { runtime.current_value_scope(), right.data<d_code, instruction_set>() };
         f["_this"] = left;
         runtime.context_active().push_frame(f);
         return {};
@@ -151,7 +151,7 @@ namespace
         }
         else
         {
-            frame f(runtime.default_value_scope(), left.data<d_code, instruction_set>(), std::make_shared<behavior_count_exit>(r));
+            frame f(runtime.current_value_scope(), left.data<d_code, instruction_set>(), std::make_shared<behavior_count_exit>(r));
             f["_x"] = r->at(0);
             runtime.context_active().push_frame(f);
         }
@@ -211,7 +211,7 @@ namespace
             }
             if (el0.is<t_code>())
             {
-                runtime.context_active().push_frame({ runtime.default_value_scope(), el0.data<d_code, instruction_set>() });
+                runtime.context_active().push_frame({ runtime.current_value_scope(), el0.data<d_code, instruction_set>() });
                 return {};
             }
             else
@@ -228,7 +228,7 @@ namespace
             }
             if (el1.is<t_code>())
             {
-                runtime.context_active().push_frame({ runtime.default_value_scope(), el1.data<d_code, instruction_set>() });
+                runtime.context_active().push_frame({ runtime.current_value_scope(), el1.data<d_code, instruction_set>() });
                 return {};
             }
             else
@@ -243,7 +243,7 @@ namespace
         auto ifcond = left.data<d_boolean, bool>();
         if (ifcond)
         {
-            runtime.context_active().push_frame({ runtime.default_value_scope(), right.data<d_code, instruction_set>() });
+            runtime.context_active().push_frame({ runtime.current_value_scope(), right.data<d_code, instruction_set>() });
             return {};
         }
         else
@@ -256,7 +256,7 @@ namespace
         if (left.data<d_boolean, bool>())
         {
             runtime.context_active().current_frame().die();
-            runtime.context_active().push_frame({ runtime.default_value_scope(), right.data<d_code, instruction_set>() });
+            runtime.context_active().push_frame({ runtime.current_value_scope(), right.data<d_code, instruction_set>() });
             return {};
         }
         else
@@ -312,7 +312,7 @@ namespace
             };
         };
 
-        frame f(runtime.default_value_scope(), right.data<d_code, instruction_set>(), std::make_shared<behavior_waituntil_exit>());
+        frame f(runtime.current_value_scope(), right.data<d_code, instruction_set>(), std::make_shared<behavior_waituntil_exit>());
         runtime.context_active().push_frame(f);
         return {};
     }
@@ -440,7 +440,7 @@ namespace
             return { };
         }
 
-        frame f(runtime.default_value_scope(), condition, std::make_shared<behavior_while_exit>(condition, code));
+        frame f(runtime.current_value_scope(), condition, std::make_shared<behavior_while_exit>(condition, code));
         runtime.context_active().push_frame(f);
         return { };
     }
@@ -527,7 +527,7 @@ namespace
                 return {};
             }
         }
-        frame f(runtime.default_value_scope(), right.data<d_code, instruction_set>(), std::make_shared<behavior_for_exit>(fordata));
+        frame f(runtime.current_value_scope(), right.data<d_code, instruction_set>(), std::make_shared<behavior_for_exit>(fordata));
         f[fordata->variable()] = fordata->from();
         runtime.context_active().push_frame(f);
         return {};
@@ -566,7 +566,7 @@ namespace
         auto arr = right.data<d_array>();
         if (arr->size() > 0)
         {
-            frame f(runtime.default_value_scope(), left.data<d_code, instruction_set>(), std::make_shared<behavior_foreach_exit>(arr));
+            frame f(runtime.current_value_scope(), left.data<d_code, instruction_set>(), std::make_shared<behavior_foreach_exit>(arr));
             f["_forEachIndex"] = 0;
             f["_x"] = arr->at(0);
             runtime.context_active().push_frame(f);
@@ -724,7 +724,7 @@ namespace
         auto arr = left.data<d_array>();
         if (arr->size() > 0)
         {
-            frame f(runtime.default_value_scope(), right.data<d_code, instruction_set>(), std::make_shared<behavior_select_exit>(arr));
+            frame f(runtime.current_value_scope(), right.data<d_code, instruction_set>(), std::make_shared<behavior_select_exit>(arr));
             f["_x"] = arr->at(0);
             runtime.context_active().push_frame(f);
             return {};
@@ -932,7 +932,7 @@ namespace
         auto r = left.data<d_array>();
         if (r->size() > 0)
         {
-            frame f(runtime.default_value_scope(), right.data<d_code, instruction_set>(), std::make_shared<behavior_findif_exit>(r));
+            frame f(runtime.current_value_scope(), right.data<d_code, instruction_set>(), std::make_shared<behavior_findif_exit>(r));
             f["_x"] = r->at(0);
             runtime.context_active().push_frame(f);
             return {};
@@ -1010,7 +1010,7 @@ namespace
             };
         };
 
-        frame f(runtime.default_value_scope(), right.data<d_code, instruction_set>(), std::make_shared<behavior_isnil_exit>());
+        frame f(runtime.current_value_scope(), right.data<d_code, instruction_set>(), std::make_shared<behavior_isnil_exit>());
         runtime.context_active().push_frame(f);
         return {};
     }
@@ -1064,7 +1064,7 @@ namespace
             };
         };
 
-        frame f(runtime.default_value_scope(), right.data<d_code, instruction_set>(), std::make_shared<behavior_switch_exit>());
+        frame f(runtime.current_value_scope(), right.data<d_code, instruction_set>(), std::make_shared<behavior_switch_exit>());
         f[d_switch::magic] = left;
         runtime.context_active().push_frame(f);
         return {};
@@ -1164,7 +1164,7 @@ namespace
         auto arr = left.data<d_array>();
         if (arr->size() > 0)
         {
-            frame f(runtime.default_value_scope(), right.data<d_code, instruction_set>(), std::make_shared<behavior_apply_exit>(arr));
+            frame f(runtime.current_value_scope(), right.data<d_code, instruction_set>(), std::make_shared<behavior_apply_exit>(arr));
             f["_x"] = arr->at(0);
             runtime.context_active().push_frame(f);
             return {};
@@ -2051,7 +2051,7 @@ namespace
             };
         };
         frame f(
-            runtime.default_value_scope(),
+            runtime.current_value_scope(),
             left.data<d_code, sqf::runtime::instruction_set>(),
             {},
             std::make_shared<behavior_catch_exit>(right.data<d_code, sqf::runtime::instruction_set>()));
